@@ -206,17 +206,20 @@ def texelutil_filter(tu, fens, jobs, per_pos_timeout, chunk=6):
     return ans
 
 
-def texelutil_iterated(tu, fens, jobs, budget_s, chunk=3):
-    """`texelutil -j 1 proofgame -f -o` (kernel -> path -> proof game iterations) with a wall-clock budget per chunk;
-    returns {fen: [status line of every iteration that was written]}"""
+def texelutil_iterated(tu, fens, jobs, budget_s, total_s, chunk=3):
+    """`texelutil -j 1 proofgame -f -o` (kernel -> path -> proof game iterations) with a wall-clock budget per chunk and
+    for the whole phase; returns {fen: [status line of every iteration that was written]}"""
     chunks = [fens[i:i + chunk] for i in range(0, len(fens), chunk)]
+    deadline = time.time() + total_s
     def work(ch):
+        left = deadline - time.time()
+        if left < 5: return [], False
         d = tempfile.mkdtemp(prefix="c16it_")
         try:
             p = subprocess.Popen([tu, "-j", "1", "proofgame", "-f", "-o", os.path.join(d, "out")], stdin=subprocess.PIPE,
                                  stdout=subprocess.DEVNULL, stderr=subprocess.DEVNULL, text=True)
             try:
-                p.communicate("\n".join(ch) + "\n", timeout=budget_s)
+                p.communicate("\n".join(ch) + "\n", timeout=min(budget_s, left))
                 finished = True
             except subprocess.TimeoutExpired:
                 p.kill(); p.communicate(); finished = False
@@ -263,7 +266,7 @@ def make_games(ctx, harness, driver, n_games, n_bound_prefix):
     r = ctx.rng
     gl, styles = [], []
     for _ in range(n_games):
-        st = r.choice([0, 0, 1, 1, 1, 2, 2, 3, 3, 3])
+        st = r.choice([0, 0, 1, 1, 1, 2, 2, 3, 3, 3, 6, 7])     # bit 0 promotion-, bit 1 castling/e.p.-seeking, bit 2 stop at an e.p. right
         plies = r.randrange(1, 151)
         gl.append(f"pg gengame {r.getrandbits(48)} {plies} {MIN_MEN} {st}"); styles.append(st)
     out = run_chunks(harness, gl, JOBS, chunk=50)
@@ -409,7 +412,7 @@ def run(ctx):
     harness, tu, driver = os.path.join(bdir, "vharness"), os.path.join(bdir, "texelutil"), vlib.driver_bin()
     ctx.cov["rule"] = ("kernels: random + boundary count tuples (p = maxPawns-1/0/+1, 0..10 pieces per kind), (current, goal) tuples derived by captures/promotions and perturbed, "
                        "(neededMoves white, black) x real (prefix, final) pairs incl. negatives and 5e8; games: random legal games from the initial position, 1..150 plies, >= 26 men, "
-                       "four generator styles (uniform / promotion-seeking / castling+en-passant-seeking / both); positions: final + one prefix per game through the filter, "
+                       "generator styles (uniform / promotion-seeking / castling+en-passant-seeking / both / ending at an en-passant right); positions: final + one prefix per game through the filter, "
                        "several prefixes per game against the final through the ProofGame API; distinct = distinct positions / pairs / tuples")
     ctx.assumptions += ["the Lean specification Chess.legalB/apply/fixupEP is the rules of chess (shared trusted text, tied to MoveGen by C01)",
                         "geometric pruning rules (pawn cones, blocked/deadlocked pieces, trapped bishops, assignment bounds, proof-kernel and extended-kernel search) have NO theorem: monitored only",
@@ -466,7 +469,7 @@ def run(ctx):
     bout = pool_lines(harness, bl, 8 if quick else 30, JOBS)
     pout = run_chunks(driver, pl, JOBS, chunk=100)
     ctx.count(len(bl))
-    n_to, nbad = 0, 0
+    n_to, nbad, nknown = 0, 0, 0
     nm_hist = {"pk_ext": 0, "pk_skipped": 0, "pk_notimpl": 0, "bound_eq_remaining": 0, "last_moves_retracted": 0}
     for (g, k), l, o, po, pline in zip(bmeta, bl, bout, pout, pl):
         ctx.distinct(l)
@@ -486,15 +489,21 @@ def run(ctx):
         if d.get("b0") == str(rem): nm_hist["bound_eq_remaining"] += 1
         if d.get("last1") not in (None, "0", "-"): nm_hist["last_moves_retracted"] += 1
         for kind, msg in check_bound_output(o, rem, cap):
+            rp = {"kind": kind, "tool": "api", "op": l, "impl_output": o, "remaining_plies": rem, "input": game_input(g, k), "goal": game_input(g, len(g.moves))}
+            if g.fens[k].split()[3] != "-" and ("findProofKernel" in msg or "No_possible_last_move" in msg):
+                # recorded defect: the extended kernel cannot express an e.p. capture available in the start position
+                # (seen directly, or through computeLastMoves' knownIllegal which runs the kernel search from the start position)
+                nknown += 1
+                ctx.violation(msg, dict(rp, finding_id="C16-extkernel-ep-start"))
+                continue
             nbad += 1
             if nbad <= 4:
-                rp = {"kind": kind, "tool": "api", "op": l, "impl_output": o, "remaining_plies": rem, "input": game_input(g, k), "goal": game_input(g, len(g.moves))}
                 if kind == "weak":
                     ctx.violation(f"ProofGame API on a (prefix, final) pair of a legal game: {msg}", dict(rp, theorem_scope="Props.C16.dist_lower_bound_captures_partial / tie of distCombine"), no_input=True)
                 else:
                     ctx.violation(f"ProofGame API on a (prefix, final) pair of a legal game ({rem} plies apart): {msg}", rp)
-    ctx.tie("api-pairs", kind="ProofGame/ProofKernel API on (prefix, final) pairs of legal games: bounds <= remaining plies, never unreachable", pairs=len(bl), timeouts=n_to, wall_s=round(time.time() - t0, 1), **nm_hist)
-    ctx.log(f"API monitor: {len(bl)} pairs, {n_to} timeouts, {nbad} predicate failures")
+    ctx.tie("api-pairs", kind="ProofGame/ProofKernel API on (prefix, final) pairs of legal games: bounds <= remaining plies, never unreachable", pairs=len(bl), timeouts=n_to, known_finding_hits=nknown, wall_s=round(time.time() - t0, 1), **nm_hist)
+    ctx.log(f"API monitor: {len(bl)} pairs, {n_to} timeouts, {nbad} predicate failures, {nknown} hits of the recorded finding")
 
     # ---- (b2) texelutil proofgame -f on final and prefix positions ------------------------------------------------
     pos_of = {}                       # fen -> (game, ply)
@@ -505,7 +514,7 @@ def run(ctx):
         for k in g.want: pos_of.setdefault(g.fens[k], (g, k))
     fens = list(pos_of)
     t0 = time.time()
-    ans = texelutil_filter(tu, fens, JOBS, 20 if quick else 60)
+    ans = texelutil_filter(tu, fens, JOBS, 10 if quick else 60, chunk=4 if quick else 6)
     st_hist = {"legal": 0, "unknown": 0, "illegal": 0, "no-answer": 0, "?": 0}
     proofs = []                       # (fen, san list, source)
     def judge(fen, line, source):
@@ -533,7 +542,7 @@ def run(ctx):
     order = sorted(fens, key=lambda f: (pos_of[f][1] > 40, r.random()))
     sub = order[:n_it * 2 // 3] + r.sample(order[n_it * 2 // 3:], min(len(order) - n_it * 2 // 3, n_it - n_it * 2 // 3)) if len(order) > n_it else order
     t0 = time.time()
-    ans_it, nfin, nch = texelutil_iterated(tu, sub, JOBS, 60 if quick else 400)
+    ans_it, nfin, nch = texelutil_iterated(tu, sub, JOBS, 60 if quick else 240, 75 if quick else 900)
     it_hist = {"legal": 0, "unknown": 0, "illegal": 0, "no-answer": 0, "fail": 0, "no-solution-info": 0}
     for fen in sub:
         ls = ans_it[fen]
@@ -603,7 +612,7 @@ def replay(ctx):
             ans = texelutil_filter(tu, [fen], 1, 600)
             lines = [ans[fen]] if ans[fen] else []
         else:
-            a, _, _ = texelutil_iterated(tu, [fen], 1, 1800, chunk=1)
+            a, _, _ = texelutil_iterated(tu, [fen], 1, 1800, 1800, chunk=1)
             lines = a[fen]
         bad = False
         for l in lines:
